@@ -122,7 +122,8 @@ where
             // demand of the task under analysis
             let self_interference = tua_rbf.service_needed(A.closed_since_time_zero());
 
-            let tua_demand = self_interference - rem_cost;
+            // (saturating: a task under analysis that never releases any jobs has no demand)
+            let tua_demand = self_interference.saturating_sub(rem_cost);
 
             // demand of all interfering tasks
             let bound_on_total_hep_workload: Service = other_tasks
